@@ -429,6 +429,16 @@ def register_forwarding(w):
         if holds is False:
             d.update(args={"witness": "D43"}, replay={"reproduced": True, "detail": detail}, formula="", model=detail)
         out["obls"].append(d)
+        for oname, target, wn, bound in (("an_explicit_result_type_is_honoured_or_rejected", "jax2onnx.plugins.jax.numpy.mean:JnpMeanPlugin.lower", "D46", "jnp.mean(a, dtype=float16) with and without axis on a[2,3]"),
+                                         ("positional_bias_and_mask_are_bound_as_in_flax", "jax2onnx.plugins.flax.nnx.dot_product_attention:DotProductAttentionPlugin.binding_specs", "D47",
+                                          "nnx.dot_product_attention(q, k, v, bias), (q, k, v, bias, mask) and the keyword form on q,k,v[1,4,2,8]")):
+            holds, detail = run_witness(wn, timeout=900)
+            d = {"oid": f"{target}#bounded:{oname}", "kind": "bounded", "status": "discharged" if holds else ("refuted" if holds is False else "unknown"),
+                 "backend": "enumerated", "time": time.time() - t0, "instances": 1, "trivial": 0, "bounded": bound,
+                 "note": f"call-form subsumption compares signatures, not what the lowering does with an accepted argument; the real export is compared with the library; {detail}"[:500]}
+            if holds is False:
+                d.update(args={"witness": wn}, replay={"reproduced": True, "detail": detail}, formula="", model=detail)
+            out["obls"].append(d)
         out["paths"], out["time"] = 1, time.time() - t0
         return out
-    w.add_contract(Contract("jax2onnx.plugins.plugin_system:<bounded-function-target-kwargs>", kind="custom", custom=bounded_targets, props=["C19"], witnesses=["C19_function_target_kwargs_family", "D43"]))
+    w.add_contract(Contract("jax2onnx.plugins.plugin_system:<bounded-function-target-kwargs>", kind="custom", custom=bounded_targets, props=["C19"], witnesses=["C19_function_target_kwargs_family", "D43", "D46", "D47"]))
